@@ -201,6 +201,7 @@ def check_C01(tier):
         gen_replay(rep, "%s_%s" % (alpha, tab), DEC[alpha], TABLES[tab], m, fastjit=quick, classify=classify_C01)
     coverage_run(rep, DEC["frag"] + ["[epsilon]", "[Foo]"], "default", 3)
     trace_C01(rep, quick)
+    table_sweep(rep, quick)
     sanitizer_clause(rep, quick)
     rep.exhaustive = True
     rep.assumptions += ["the clause about an independent sanitizer is judged by RDKit (MolFromSmiles with "
@@ -255,6 +256,31 @@ def trace_C01(rep, quick):
             else:
                 rep.violation("decoder output needs a ring label above 99 (%d symbols)" % len(recs[tid]["inp"]),
                               {"tokens": recs[tid]["inp"], "table": TABLES[tab]})
+
+
+def table_sweep(rep, quick):
+    """One dict object reused for a parameter sweep: edit, set, decode, edit, set, decode ...  Every decode is
+    validated by TLC under the table that is in force (what get_semantic_constraints reports)."""
+    sf = de.selfies_mod()
+    rng = random.Random(seed() + 4242)
+    inputs = [gens.alive_selfies(rng, rng.randint(4, 40)) for _ in range(40 if quick else 300)]
+    inputs += [["[C]", "[=C]", "[C]", "[=C]", "[C]", "[=C]", "[Ring1]", "[=Branch1]"], ["[N]", "[#C]", "[=O]"]]
+    t = dict(sf.get_preset_constraints("default"))
+    groups = []
+    try:
+        for step, (key, val) in enumerate([("C", 4), ("C", 3), ("C", 2), ("N", 1), ("C", 4), ("O", 0), ("O", 2), ("?", 2), ("C", 1)]):
+            t[key] = val
+            sf.set_semantic_constraints(t)            # the SAME dict object every time
+            now = sf.get_semantic_constraints()
+            recs = []
+            for toks in inputs:
+                kind, out = de.call_decoder("".join(toks))
+                recs.append({"inp": list(toks), "kind": kind, "out": out})
+            groups.append((dict(now), recs))
+    finally:
+        sf.set_semantic_constraints("default")
+    for i, (tab, recs) in enumerate(groups):
+        trace_validate(rep, "sweep%d" % i, recs, tab)
 
 
 def sanitizer_clause(rep, quick):
@@ -362,6 +388,15 @@ def check_C13(tier):
     for v in vs[:: max(1, len(vs) // 2)][:2]:
         rep.sample({"input": "".join(v["inp"]), "expect": [v["kind"], v["out"]]})
     judge_mismatches(rep, "nop", mism, "default", False, default_classify)
+    # ... and with attribute=True: the whole result (string and attribution list) is unchanged by [nop]
+    rng_a = random.Random(seed() + 131)
+    for v in (vs if len(vs) < 30000 else rng_a.sample(vs, 30000)):
+        a = de.call_decoder("".join(v["inp"]), False, True)
+        b = de.call_decoder("".join(t for t in v["inp"] if t != "[nop]"), False, True)
+        rep.traces += 1
+        if a != b:
+            rep.violation("[nop] changes the attributed result of %r: %r vs %r" % ("".join(v["inp"]), a, b),
+                          {"tokens": v["inp"], "attribute": True})
     # the same with compatible=True (the [nop] filter sits next to the compatibility mapping)
     results, vectors_c = de.run_decoder_tlc("nop_compat", NOP_ALPHA[:7] + ["[Branch1_2]", "[Expl=Ring1]"], "default", n - 1,
                                             compat=True, emit=True, invariants=["NopInvisible"], fastjit=quick)
